@@ -61,7 +61,7 @@ def run(tier, seed):
     check.coverage["rule"] = ("abstract documents assembled from well-formed parts (paths with plain and mixed-segment templates, path- and operation-level parameters of every location, shared parameters, "
                               "responses with headers, definitions with additionalProperties variants and allOf inheritance), each unedited, with one of %d rule-breaking / rule-preserving edits (rotating so "
                               "that every edit is exercised) and with random double edits; rendered to Swagger JSON and validated with continue-on-errors x StrictPathParamUniqueness. TLC evaluates "
-                              "SwaggerRules!Broken on the abstract document: errors are expected exactly when some documented rule is broken. distinct = distinct rendered documents." % 34)
+                              "SwaggerRules!Broken on the abstract document: errors are expected exactly when some documented rule is broken. distinct = distinct rendered documents." % 37)
     check.coverage["open_deviations_honoured"] = sorted(live)
     check.assumptions = ["the renderer (abstract document -> Swagger JSON) is trusted; unedited generated documents must validate without error (checked on every run)", "only the verdict (errors or not) is compared"]
     return check.finish()
